@@ -1529,10 +1529,10 @@ fn main() {
         }
     };
     let make_dir = |name: &str| -> std::io::Result<()> {
-        if reuse && Path::new(name).is_dir() {
-            Ok(())
-        } else {
-            std::fs::create_dir(name)
+        // with DRIVE_REUSE several processes may set the same scratch directory up at the same instant
+        match std::fs::create_dir(name) {
+            Err(e) if reuse && e.kind() == std::io::ErrorKind::AlreadyExists && Path::new(name).is_dir() => Ok(()),
+            r => r,
         }
     };
     if let Err(e) = std::env::set_current_dir(&scratch)
